@@ -7,8 +7,12 @@ members are the pre-order of a well-formed forest of code pieces (ranges nested 
 nested piece starting after the enclosing one; any depth, any breadth, any number of filters per
 piece, any global filters interleaved), the push/pop machine never pops an empty stack and its output
 is `Spec.verdict` mapped over the diagnostics in order of position: innermost covering filter, else
-the first accepted global filter, else unchanged.  That the real `get_filter_ranges` only produces such
-families is checked on every program of the run (`forestOf`, `wfb_sound`).  Also proved, for all
+the first accepted global filter, else unchanged.  `C08_visitor_forest` / `C08_visitor` derive that
+hypothesis from the shape of the syntax tree (Filter/Visitor.lean, Filter/VisitorProof.lean): for every
+tree whose spans nest and whose comments belong to one token each, `get_filter_ranges` yields the pre-order
+of a well-formed forest, so visitor + machine = specification.  That the node sequence full_moon's visitor
+reports is the pre-order of such a tree is checked on every program of the run (`synOf`,
+`C08_visitor_checked`); the older check of the filter family itself (`forestOf`, `C08_machine_checked`) is kept.  Also proved, for all
 inputs laminar or not: diagnostics of lints no filter names are untouched; a file without accepted
 filters is returned unchanged; the decision for a covered diagnostic ignores its incoming severity.
 Proof files: Filter/Exec.lean (lazy replay = independent prefix executions), Filter/Forest.lean
@@ -19,6 +23,7 @@ match on that stack), Filter/MachineProof.lean.
 import Selene.Filter.Lemmas
 import Selene.Filter.MachineProof
 import Selene.Filter.ForestOf
+import Selene.Filter.SynOf
 namespace Selene.Props.C08
 open Selene.Filter
 
@@ -45,6 +50,70 @@ theorem C08_machine_checked (entries : List RangeEntry) (fc : Option Nat) (ds : 
     subst h
     exact machine_eq_spec entries fc ds _ _ hc.2.symm (Forest.wfb_sound _ _ _ hc.1.2) hne
   · simp at h
+
+/-- **C08 (the visitor yields forests).** For every syntax tree whose spans nest (children inside their
+parent, in source order, a commented token strictly after what ends before it) and whose comments belong to
+one token each, the accepted inline filters `get_filter_ranges` records are the pre-order of a well-formed
+forest: the hypothesis of `C08_machine` follows from the shape of the tree. -/
+theorem C08_visitor_forest (trivia : Nat → List Comment) (lintExists : String → Bool) (hok : TriviaOK trivia)
+    (L : SynList) (hi : Nat) (h : L.wf trivia 0 false hi = true) :
+    ∃ F : Forest, F.WF 0 hi ∧
+      (filtersOf (claim lintExists (L.preorder trivia) [])).filter (fun f => !f.cfg.global) = F.filters := by
+  refine ⟨L.forest trivia lintExists [], ?_, ?_⟩
+  · exact SynList.forest_WF trivia lintExists L 0 false hi 0 [] h (fun a _ _ => Or.inl (Nat.zero_le a))
+  · exact (SynList.claim_forest trivia lintExists hok L 0 false hi [] h).1
+
+/-- **C08 (from the syntax tree to the verdicts).** `get_filter_ranges` followed by `filter_diagnostics`
+over any such tree: no panic, and every diagnostic gets the verdict of the innermost covering filter, else
+the first accepted global one, else stays as it was. -/
+theorem C08_visitor (trivia : Nat → List Comment) (lintExists : String → Bool) (hok : TriviaOK trivia)
+    (L : SynList) (hi : Nat) (h : L.wf trivia 0 false hi = true) (fc : Option Nat) (ds : List Diag)
+    (hne : (filtersOf (claim lintExists (L.preorder trivia) [])).isEmpty = false) :
+    (filterDiagnostics (claim lintExists (L.preorder trivia) []) fc ds).map (·.diags) =
+      some ((sortDiags ds).filterMap (Spec.verdict (filtersOf (claim lintExists (L.preorder trivia) [])) fc)) := by
+  obtain ⟨F, hwf, hF⟩ := C08_visitor_forest trivia lintExists hok L hi h
+  exact machine_eq_spec _ fc ds F hi hF hwf hne
+
+/-- the same for a node sequence as the real `NodeVisitor` reports it, with the hypothesis in the executable
+form the driver evaluates on every program (`synOf`: the nodes that carry comments are the pre-order of a
+well-formed tree) -/
+theorem C08_visitor_checked (lintExists : String → Bool) (nodes : List NodeInfo) (L : SynList) (hi : Nat)
+    (h : synOf nodes = some (L, hi)) (fc : Option Nat) (ds : List Diag)
+    (hne : (filtersOf (claim lintExists nodes [])).isEmpty = false) :
+    (filterDiagnostics (claim lintExists nodes []) fc ds).map (·.diags) =
+      some ((sortDiags ds).filterMap (Spec.verdict (filtersOf (claim lintExists nodes [])) fc)) := by
+  unfold synOf at h
+  simp only at h
+  split at h
+  · rename_i hc
+    simp only [Bool.and_eq_true, beq_iff_eq] at hc
+    injection h with h
+    injection h with h1 h2
+    subst h1; subst h2
+    obtain ⟨⟨⟨_, hwf⟩, hok⟩, hpre⟩ := hc
+    have := C08_visitor (triviaOf (withComments nodes)) lintExists (triviaOKb_sound _ hok) _ _ hwf fc ds
+    rw [hpre, claim_withComments] at this
+    exact this hne
+  · simp at h
+
+/-! the premises of `C08_visitor` are satisfiable: `--[[ selene: allow(empty_if) ]] if … --[[ selene: deny(empty_if) ]] if … end end`
+    as the visitor sees it (a Block, a statement, a nested Block and statement, the end-of-file token) -/
+private def exTrivia (a : Nat) : List Comment :=
+  if a = 30 then [{ start := 0, stop := 29, lines := [" selene: allow(empty_if)".toList] }]
+  else if a = 70 then [{ start := 40, stop := 69, lines := [" selene: deny(empty_if)".toList] }] else []
+private def exTree : SynList :=
+  .cons (.node true 30 100 (.cons (.node false 30 100 (.cons (.node true 70 90 (.cons (.node false 70 90 .nil) .nil)) .nil)) .nil))
+    (.cons (.node false 100 100 .nil) .nil)
+example : exTree.wf exTrivia 0 false 100 = true := by decide
+example : (filtersOf (claim (fun _ => true) (exTree.preorder exTrivia) [])).isEmpty = false := by decide
+example : TriviaOK exTrivia := by
+  constructor
+  · intro a a' c c' hne hc hc'
+    unfold exTrivia at hc hc'
+    split at hc <;> split at hc' <;> (try split at hc) <;> (try split at hc') <;> simp_all [Comment.range] <;> omega
+  · intro a
+    unfold exTrivia
+    split <;> (try split) <;> simp
 
 /-- **C08 (others untouched).** A diagnostic of a lint that no filter comment of the file names —
 inline or global, accepted, late or conflicting — is reported exactly as without the comments,
